@@ -94,13 +94,10 @@ func (f *AdjustArray) Call(s *slip.Scope, args slip.List, depth int) (result sli
 	}
 	switch ta := args[1].(type) {
 	case slip.Fixnum:
-		if ta < 0 {
-			slip.TypePanic(s, depth, "dimensions", ta, "non-negative fixnum", "list of positive fixnums")
-		}
-		dims = []int{int(ta)}
+		dims = []int{getSizeArg(s, ta, "dimensions", depth)}
 	case slip.List:
 		for _, v := range ta {
-			if num, _ := v.(slip.Fixnum); 0 < num {
+			if num, _ := v.(slip.Fixnum); 0 < num && num <= slip.ArrayMaxDimension {
 				dims = append(dims, int(num))
 			} else {
 				slip.TypePanic(s, depth, "dimensions", args[0], "list of positive fixnums")
